@@ -113,7 +113,7 @@ def run(rep: common.Report, tier: str, seed: int, replay=None) -> int:
     # matched and unmatched prefixes (uA/um = nA/nm = mA/mm = 1 A/m would hide a missing prefix conversion)
     systems = [("um", "mT", "uA"), ("nm", "uT", "nA"), ("mm", "T", "mA"), ("um", "T", "mA"), ("nm", "mT", "uA")]
     B_T, I_A = 0.4e-3, 2.0e-6
-    for screening in ((False, True) if tier == "thorough" else (False, True)):
+    for screening, ramp in ((False, False), (True, False), (False, True)):
         frames, phys, failed, fields = {}, {}, {}, {}
         P_um = np.array([[0.7, -0.4, 0.8], [-1.5, 0.9, 1.5], [2.1, 0.2, -0.6], [0.0, 0.0, 2.0]])
         with tempfile.TemporaryDirectory(prefix="pyt_c08_") as td:
@@ -121,9 +121,12 @@ def run(rep: common.Report, tier: str, seed: int, replay=None) -> int:
                 dev = device_in(base, lu)
                 opts = runs.make_options(td, solve_time=0.25 if not screening else 0.06, dt_init=2e-3, dt_max=2e-2, save_every=10,
                                          field_units=fu, current_units=cu, include_screening=screening, screening_tolerance=1e-3,
-                                         output_file=f"{td}/r_{lu}_{fu}_{cu}_{int(screening)}.h5")
+                                         output_file=f"{td}/r_{lu}_{fu}_{cu}_{int(screening)}{int(ramp)}.h5")
                 try:
-                    sol = tdgl.solve(dev, opts, applied_vector_potential=B_T / FU[fu],
+                    # ramp: a time-dependent uniform field (0.2 B -> B over 0.1 tau), stated in the run's own units
+                    Afield = (runs.ramp_field_param(0.2 * B_T / FU[fu], B_T / FU[fu], 0.1, field_units=fu, length_units=lu)
+                              if ramp else B_T / FU[fu])
+                    sol = tdgl.solve(dev, opts, applied_vector_potential=Afield,
                                      terminal_currents={"source": I_A / CU[cu], "drain": -I_A / CU[cu]})
                 except RuntimeError as e:
                     failed[f"{lu}/{fu}/{cu}"] = str(e)[:160]
@@ -149,7 +152,7 @@ def run(rep: common.Report, tier: str, seed: int, replay=None) -> int:
                 continue
             ref = frames["um"]
             for lu in [k_ for k_ in frames if k_ != "um"]:
-                case = {"units": lu, "screening": screening, "frames": len(ref)}
+                case = {"units": lu, "screening": screening, "time_dependent_field": ramp, "frames": len(ref)}
                 if len(frames[lu]) != len(ref):
                     rep.violation("the same physical problem recorded a different number of frames in another unit system", case)
                     continue
